@@ -7,6 +7,7 @@ from typing import Sequence
 
 import onnx_ir as ir
 
+from onnxscript._internal import _verif
 from onnxscript._internal import builder as _builder
 
 
@@ -80,9 +81,24 @@ class Parameter(ir.Value):
                 "initialized with a name before realization."
             )
         root = builder.root
+        if _verif.ENABLED:
+            _requested = self_name
         self_name = self.name = root._qualify_initializer_name(self_name)  # pylint: disable=protected-access
+        if _verif.ENABLED:
+            _existed = self_name in root.graph.initializers
         root.graph.initializers[self_name] = self
         self._realized = True
+        if _verif.ENABLED:
+            _verif.emit(
+                _verif.builder_kind(builder),
+                "Param",
+                b=_verif.tok(builder, "b"),
+                requested=str(_requested),
+                name=str(self_name),
+                value=_verif.tok(self, "v"),
+                existed=_existed,
+                graph=_verif.tok(root.graph, "g"),
+            )
         return self
 
     def __repr__(self) -> str:
